@@ -12,7 +12,9 @@
 (* other response fires the command's effect.  Guards of Script are        *)
 (* evaluated as monitors: a failed guard is printed as an "@@VIOL" line    *)
 (* and added to viol; replay continues to the end of the trace.            *)
-(* Functional-dependency monitors (the memo variables) compare runs of one family.      *)
+(* Functional-dependency monitors (the memo variables) compare runs of one *)
+(* family.  run.dup (the solver saw one formula inserted twice) is carried  *)
+(* into violation records only to attribute known findings.                *)
 (***************************************************************************)
 EXTENDS Script, Json, IOUtils
 
@@ -32,11 +34,16 @@ tvars == <<l, viol, run, memo, memoCmd, memoOut, popped, rejSeen>>
 vars == <<svars, tvars>>
 
 Ev == Tr[l]
-NoRun == [sid |-> "", cfg |-> "", kind |-> "", io |-> "", base |-> "", intl |-> FALSE]
+NoRun == [sid |-> "", cfg |-> "", kind |-> "", io |-> "", base |-> "", intl |-> FALSE, dup |-> FALSE]
 
 \* ---- reporting --------------------------------------------------------
+\* features of the current state used only to attribute known findings
+RECURSIVE HasTermIte(_)
+HasTermIte(t) == (tt[t].k = "a" /\ tt[t].op = "ite" /\ tt[t].s # "Bool")
+                 \/ \E i \in DOMAIN tt[t].a : HasTermIte(tt[t].a[i])
+IteNamed == \E n \in DOMAIN names : HasTermIte(names[n].t)
 V(p, why) == [p |-> p, l |-> l, why |-> why, sid |-> run.sid, cfg |-> run.cfg,
-              kind |-> run.kind, afterReject |-> rejSeen]
+              kind |-> run.kind, afterReject |-> rejSeen, dup |-> run.dup, iteNamed |-> IteNamed]
 Report(vs) == \A v \in vs : PrintT("@@VIOL " \o ToJson(v))
 \* vs is a set of violation records
 Note(vs) == /\ Report(vs) /\ viol' = viol + Cardinality(vs)
@@ -64,7 +71,7 @@ TrFam ==
 TrRun ==
   /\ Ev.e = "Run" /\ Step
   /\ run' = [sid |-> Ev.sid, cfg |-> Ev.cfg, kind |-> Ev.kind, io |-> Ev.io,
-             base |-> Ev.base, intl |-> Ev.intl]
+             base |-> Ev.base, intl |-> Ev.intl, dup |-> Ev.dup]
   /\ inited' = FALSE /\ opts' = DefaultOpts /\ stack' = << <<>> >> /\ names' = <<>>
   /\ defs' = <<>> /\ mode' = "start" /\ model' = <<>> /\ errs' = 0
   /\ popped' = {} /\ rejSeen' = FALSE
